@@ -124,10 +124,10 @@ def tlc(module, cfg, workdir, workers=4, env=None, timeout=3600, extra=(), java_
 
 
 def tlc_stats(out):
-    m = re.search(r"(\d+) states generated, (\d+) distinct states found", out)
-    if not m:
+    ms = re.findall(r"^(\d+) states generated, (\d+) distinct states found", out, re.M)
+    if not ms:
         return None
-    return {"generated": int(m.group(1)), "distinct": int(m.group(2))}
+    return {"generated": int(ms[-1][0]), "distinct": int(ms[-1][1])}
 
 
 def tlc_failed(out):
